@@ -88,4 +88,12 @@ def layerRect (x y w h : Rat) (noFilters : Bool) (maxB : IntRect) : Except Strin
     | none => .ok none
     | some r => .ok (fitToRect r maxB)
 
+/-- render_group: the `Context` handed to the children (and the mask) of an offscreen layer —
+    `max_bbox` translated into the layer's own coordinate system (fix 64ee706); when the translated
+    box is not representable the parent's box is kept. -/
+def childMaxBox (mb ibbox : IntRect) : IntRect :=
+  match IntRect.fromXywh (satI32 (mb.x - ibbox.x)) (satI32 (mb.y - ibbox.y)) mb.w mb.h with
+  | some r => r
+  | none => mb
+
 end Resvg.Render
